@@ -458,6 +458,11 @@ impl OpInst {
             // individual arguments before the final list reach the callee as the very same objects
             "apply-list" => format!("(apply list {} (list {}))", args[0], args[1]),
             "apply-identity" => format!("(apply (lambda (x) x) {} '())", args[0]),
+            "apply-spread" => match self.sel {
+                0 => format!("(apply list {})", args[0]),
+                1 => format!("(apply (lambda r r) {})", args[0]),
+                _ => format!("(apply (lambda (a . r) r) 0 {})", args[0]),
+            },
             "for-each" => format!("(begin (set! tmp '()) (for-each (lambda (x) (set! tmp (cons x tmp))) {}) tmp)", args[0]),
             "for-each2" => format!("(begin (set! tmp '()) (for-each (lambda (x y) (set! tmp (cons (cons x y) tmp))) {} {}) tmp)", args[0], args[1]),
             n => format!("({} {})", n, args.join(" ")),
@@ -510,6 +515,17 @@ impl OpInst {
                 Value(s.mk_list(&items, MV::Nil))
             }
             "apply-identity" => Value(a0),
+            // (apply list xs), (apply (lambda r r) xs), (apply (lambda (a . r) r) 0 xs): a freshly allocated list
+            // of the same elements
+            "apply-spread" => {
+                if !s.is_listish(&a0) {
+                    return NotEnabled;
+                }
+                match s.list(&a0) {
+                    Some(items) => Value(s.mk_list(&items, MV::Nil)),
+                    None => Fail,
+                }
+            }
             "length" => {
                 if !s.is_listish(&a0) {
                     return NotEnabled;
@@ -832,6 +848,9 @@ pub fn alphabet() -> Vec<OpInst> {
         }
         add("for-each2", vec![a.clone(), Arg::Slot(0)], 0);
         add("apply-identity", vec![a.clone()], 0);
+        for sel in 0..3 {
+            add("apply-spread", vec![a.clone()], sel);
+        }
         add("apply-list", vec![a.clone(), Arg::Slot(1)], 0);
         for k in [-1i64, 0, 1, 2, 3, 4] {
             add("list-tail", vec![a.clone(), lit(MV::I(k))], 0);
@@ -1155,7 +1174,7 @@ pub fn run(ctx: &Ctx) -> i32 {
     let mut rep = Report::new("model_checking");
     let ops = alphabet();
     let max_depth = std::env::var("C14_DEPTH").ok().and_then(|s| s.parse().ok()).unwrap_or(ctx.tier.pick(2u32, 3u32));
-    let state_cap = ctx.tier.pick(60_000usize, 1_500_000usize);
+    let state_cap = ctx.tier.pick(60_000usize, 400_000usize);
     let mut seen: HashSet<MS> = HashSet::new();
     let mut parent: HashMap<MS, (Option<MS>, String)> = HashMap::new();
     let mut frontier: Vec<MS> = vec![];
@@ -1231,6 +1250,162 @@ pub fn run(ctx: &Ctx) -> i32 {
             break;
         }
     }
+    // histories: two operations applied one after the other to the same objects, without rebuilding the state in
+    // between (the search above rebuilds every state from its canonical form, which hides whatever the VM remembers
+    // about how an object was made: its internal representation, caches, sharing with the arguments)
+    let firsts: Vec<(MS, usize)> = initial_pools().into_iter().flat_map(|p| (0..ops.len()).map(move |i| (p.clone(), i))).collect();
+    let ops_ref = &ops;
+    let a_hist = par_fold(
+        firsts.len() as u64,
+        8,
+        || St { im: None, used: 0 },
+        |st, acc, i| {
+            let (pool, oi) = &firsts[i as usize];
+            let op1 = &ops_ref[*oi];
+            let mut s1 = pool.clone();
+            let s1 = match op1.apply(&mut s1) {
+                Outcome::Value(v) => {
+                    s1.slots[op1.dest] = v;
+                    s1
+                }
+                Outcome::Unspecified => s1,
+                _ => return,
+            };
+            let s1 = match s1.canon() {
+                Some(c) if c.within_bounds() => c,
+                _ => return,
+            };
+            let build = pool.build_text();
+            let t1 = op1.text();
+            for op2 in ops_ref.iter() {
+                // second operations that look at what the first one produced or changed
+                let touches = op2.args.iter().any(|a| matches!(a, Arg::Slot(k) if *k == op1.dest)) || matches!(op1.name, "set-car!" | "set-cdr!" | "vector-set!" | "vector-fill!" | "vector-copy!");
+                if !touches {
+                    continue;
+                }
+                let mut s2 = s1.clone();
+                let outcome = op2.apply(&mut s2);
+                let after = match &outcome {
+                    Outcome::NotEnabled => continue,
+                    Outcome::Fail => s1.clone(),
+                    Outcome::Value(v) => {
+                        s2.slots[op2.dest] = v.clone();
+                        match s2.canon() {
+                            Some(c) if c.within_bounds() => c,
+                            _ => continue,
+                        }
+                    }
+                    Outcome::Unspecified => match s2.canon() {
+                        Some(c) if c.within_bounds() => c,
+                        _ => continue,
+                    },
+                };
+                let t2 = op2.text();
+                let session = format!("{} {} {}", build, t1, t2);
+                beat(&session);
+                acc.evals += 1;
+                acc.count("history_pairs", 1);
+                let im = vm(st);
+                let _ = im.eval_text(&build);
+                let _ = im.eval_text(&t1);
+                let r = im.eval_text(&t2);
+                let key = format!("{} ; {} @ {}", t1, t2, pool.show_pool());
+                let mk = |observed: &str, what: String| Violation {
+                    key: key.clone(),
+                    class: Some(format!("history/{}>{}", op1.name, op2.name)),
+                    observed: observed.to_string(),
+                    detail: json!({"session": [VM_PRELUDE, build, t1, t2, "(list p0 p1 p2 p3)"], "problem": what, "model_pool_after": after.show_pool()}),
+                };
+                match (&outcome, &r) {
+                    (_, ImplOut::Panic(m)) => {
+                        acc.violation(mk("panic", m.clone()));
+                        st.im = None;
+                        continue;
+                    }
+                    (Outcome::Fail, ImplOut::Value(c)) => {
+                        acc.violation(mk("value-instead-of-error", format!("{:#}", c)));
+                        continue;
+                    }
+                    (Outcome::Fail, ImplOut::Error(_, _)) => {}
+                    (_, ImplOut::Error(m, _)) => {
+                        acc.violation(mk("error-for-valid-call", m.clone()));
+                        continue;
+                    }
+                    (_, ImplOut::Value(_)) => {}
+                }
+                match im.eval_text(&after.observe_text()) {
+                    ImplOut::Value(c) => match check_observation(&after, &c) {
+                        Ok(()) => acc.nontrivial += 1,
+                        Err(what) => {
+                            let kind = if what.starts_with("aliasing") { "wrong-aliasing" } else { "wrong-pool-contents" };
+                            acc.violation(mk(kind, what));
+                        }
+                    },
+                    other => {
+                        acc.violation(mk("wrong-pool-contents", other.show()));
+                        if matches!(other, ImplOut::Panic(_)) {
+                            st.im = None;
+                        }
+                    }
+                }
+            }
+        },
+        Acc::merge,
+        acc_zero,
+    );
+    // large structures with internal sharing: equal? / member / assoc on lists and vectors of 10 .. 300 rows, where one
+    // side holds the same row object n times and the other side separately allocated rows (the pools of the search
+    // hold at most 8 objects)
+    {
+        const SETUP: &str = "(define row (list 1 2)) (define (same n) (if (= n 0) '() (cons row (same (- n 1))))) (define (fresh n last) (if (= n 1) (list last) (cons (list 1 2) (fresh (- n 1) last)))) (define (vrow) (vector 1 (list 2)))";
+        let checks: Vec<(&str, &str)> = vec![
+            ("(equal? (same N) (fresh N (list 1 2)))", "#t"),
+            ("(equal? (fresh N (list 1 2)) (same N))", "#t"),
+            ("(equal? (same N) (fresh N (list 1 3)))", "#f"),
+            ("(equal? (fresh N (list 1 3)) (same N))", "#f"),
+            ("(equal? (fresh N (list 1 2)) (fresh N (list 1 3)))", "#f"),
+            ("(equal? (list->vector (same N)) (list->vector (fresh N (list 1 3))))", "#f"),
+            ("(equal? (list->vector (fresh N (list 1 3))) (list->vector (same N)))", "#f"),
+            ("(equal? (make-vector N row) (list->vector (fresh N (list 1 2))))", "#t"),
+            ("(equal? (list->vector (fresh N (list 1 2))) (make-vector N row))", "#t"),
+            ("(let ((v (vrow))) (equal? (make-vector N v) (let ((w (make-vector N (vrow)))) (vector-set! w (- N 1) (vector 1 (list 3))) w)))", "#f"),
+            ("(let ((v (vrow))) (equal? (let ((w (make-vector N (vrow)))) (vector-set! w (- N 1) (vector 1 (list 3))) w) (make-vector N v)))", "#f"),
+            ("(if (member (list 1 3) (same N)) 'found 'absent)", "absent"),
+            ("(length (member (list 1 3) (fresh N (list 1 3))))", "1"),
+            ("(if (assoc 1 (fresh N (list 1 3))) 'found 'absent)", "found"),
+            ("(if (assoc 7 (same N)) 'found 'absent)", "absent"),
+            ("(equal? (list (same N) (same N)) (list (fresh N (list 1 2)) (fresh N (list 1 3))))", "#f"),
+        ];
+        let mut im = Impl::new();
+        for f in parse_forms(SETUP).unwrap() {
+            let _ = im.eval(&f);
+        }
+        for n in [10usize, 23, 40, 70, 130, 300] {
+            for (expr, want) in &checks {
+                let text = expr.replace('N', &n.to_string());
+                beat(&text);
+                acc.evals += 1;
+                let got = im.eval_text(&text).show();
+                if got == *want {
+                    acc.nontrivial += 1;
+                } else {
+                    acc.violation(Violation {
+                        key: format!("large:{}", text),
+                        class: Some("large-shared-structures".into()),
+                        observed: if got.starts_with("panic") { "panic".into() } else if got.starts_with("error") { "error".into() } else { "wrong-result".into() },
+                        detail: json!({"session": [SETUP, text], "expected": want, "observed": got}),
+                    });
+                    if got.starts_with("panic") {
+                        im = Impl::new();
+                        for f in parse_forms(SETUP).unwrap() {
+                            let _ = im.eval(&f);
+                        }
+                    }
+                }
+            }
+        }
+        beat("");
+    }
     // conformance of construction: states reached by replaying their shortest path from the initial pool
     let replay_states: Vec<MS> = {
         let mut v: Vec<&MS> = parent.keys().collect();
@@ -1286,6 +1461,7 @@ pub fn run(ctx: &Ctx) -> i32 {
     );
     let replayed = a2.counters.get("traces_replayed_from_initial_pool").copied().unwrap_or(0);
     acc = Acc::merge(acc, a2);
+    acc = Acc::merge(acc, a_hist);
     for s in seen.iter().take(4) {
         acc.sample(json!({"pool": s.show_pool(), "objects": s.objs.len()}));
     }
@@ -1298,7 +1474,7 @@ pub fn run(ctx: &Ctx) -> i32 {
     rep.extra("operation_instances_in_alphabet", json!(ops.len()));
     rep.extra("state_cap_hit", json!(cap_hit));
     rep.rule = format!(
-        "Breadth-first search to depth {} from 9 initial pools over a reference store model: 4 named slots holding scalars (0 1 a #t () #\\x, small integers) or references into a store of pairs and vectors (spine <= 3, vector length <= 3, <= 8 objects, acyclic), canonicalised by renaming locations in first-visit order and dropping unreachable objects (sound because the language cannot observe addresses). Alphabet: {} operation instances over the slots (cons car cdr set-car! set-cdr! list length append reverse list-tail list-ref memq memv member assq assv assoc map (3 procedures, 1 and 2 lists) for-each (1 and 2 lists) list? vector make-vector vector-length vector-ref vector-set! vector-fill! vector->list list->vector vector-copy (with start) vector-copy! (at, start, end incl. overlapping) equal?, apply with individual arguments before the list, and moves), indices from -1..len+1 and 2^62; an instance is enabled only where R7RS fixes the outcome. Every transition is executed on the real VM: the state is built from its canonical form, the operation applied, and the result (value vs required error) and the whole pool afterwards compared with the model: contents by value (also through equal? against the pool read as a literal, both ways round), identity by writing a marker through each object in turn and comparing which paths show it. Shortest paths of a sub-set of states are replayed from the initial pool in a fresh VM (state reached by operations = state built directly). Non-trivial = a transition whose outcome and full pool observation agreed.",
+        "Breadth-first search to depth {} from 9 initial pools over a reference store model: 4 named slots holding scalars (0 1 a #t () #\\x, small integers) or references into a store of pairs and vectors (spine <= 3, vector length <= 3, <= 8 objects, acyclic), canonicalised by renaming locations in first-visit order and dropping unreachable objects (sound because the language cannot observe addresses). Alphabet: {} operation instances over the slots (cons car cdr set-car! set-cdr! list length append reverse list-tail list-ref memq memv member assq assv assoc map (3 procedures, 1 and 2 lists) for-each (1 and 2 lists) list? vector make-vector vector-length vector-ref vector-set! vector-fill! vector->list list->vector vector-copy (with start) vector-copy! (at, start, end incl. overlapping) equal?, apply with individual arguments before the list, and moves), indices from -1..len+1 and 2^62; an instance is enabled only where R7RS fixes the outcome. Every transition is executed on the real VM: the state is built from its canonical form, the operation applied, and the result (value vs required error) and the whole pool afterwards compared with the model: contents by value (also through equal? against the pool read as a literal, both ways round), identity by writing a marker through each object in turn and comparing which paths show it. Large structures: equal? / member / assoc on lists and vectors of 10 .. 300 rows with the same row object on one side and separately allocated rows on the other (16 checks x 6 sizes). Histories: from each initial pool every enabled operation followed, on the same objects and without rebuilding, by every operation that reads the first one's destination (or any operation after a mutator), with the same oracles. Shortest paths of a sub-set of states are replayed from the initial pool in a fresh VM (state reached by operations = state built directly). Non-trivial = a transition whose outcome and full pool observation agreed.",
         depth_done, ops.len()
     );
     rep.assumptions.push("memq/assq/memv/assv get keys on which eq?/eqv? are fully specified; vector-copy's end argument is excluded (pinned non-R7RS meaning); calls whose outcome R7RS leaves open (car of a non-pair, assq on a list with non-pair elements, ...) are not enabled".into());
